@@ -46,6 +46,7 @@ CAP = 1000
 SERIAL = 19                      # field f19 carries the serial number of every logged message
 GLOBAL_KEYS = [20, 21, 22, 23]   # collide with message fields
 MSG_KEYS = [20, 21, 22, 24, 25]
+BIG_KEYS = [5, SERIAL, 20, 21, 22, 23]
 
 
 # =====================================================================================
@@ -216,8 +217,10 @@ def model_histories(case):
             to_coq(Pos(SERIAL)), to_coq(Pos(SERIAL)), ids)
     obs = "fst (observe (run (mk_config [] []) (map hop_op h) init_state) %s)" % ids
     if case.get("big"):
-        # long histories: timestamp and task_level ([1] for every message here) are not printed
-        obs = ("map (fun x => (fst x, map (filter (fun kv => negb (Pos.eqb (fst kv) 2 || Pos.eqb (fst kv) 3))) (snd x))) (%s)" % obs)
+        # long histories are about which messages are retained / handed over, in which order, with which global
+        # fields: only message_type, the serial number and the fields f20..f23 are printed and compared
+        obs = ("map (fun x => (fst x, map (filter (fun kv => existsb (Pos.eqb (fst kv)) %s)) (snd x))) (%s)"
+               % (to_coq([Pos(k) for k in BIG_KEYS]), obs))
     return "let h := %s in (%s, %s)" % (h, obs, spec)
 
 
@@ -238,7 +241,7 @@ def model_obs_histories(case, parsed):
 
 def project_histories(case, obs):
     if case.get("big"):
-        return {"dests": [[i, [[kv for kv in m if kv[0] not in (2, 3)] for m in ms]] for i, ms in obs["dests"]]}
+        return {"dests": [[i, [[kv for kv in m if kv[0] in BIG_KEYS] for m in ms]] for i, ms in obs["dests"]]}
     return {"dests": obs["dests"]}
 
 
@@ -297,29 +300,27 @@ def oracle_histories(case, obs):
         later = [s for i, s in logs if j < i < r]
         want = buffered + later
         ms = got.get(did, [])
-        serials = []
-        when = j
-        nbuf = 0
+        serials = [dict((k, v) for k, v in m)[SERIAL][1] for m in ms if any(k == SERIAL for k, _ in m)]
+        for s_ in serials:
+            if s_ not in log_pos:
+                return "destination %d received a message (serial %r) that was never logged" % (did, s_)
+        if serials != want:
+            return _explain(did, j, first_add, r, len(hist), buffered, later, serials)
+        # every delivered message (failure reports included: they are delivered during the same call as the message
+        # they are about) carries all global fields set before its delivery
+        when, nbuf = j, 0
         for m in ms:
             d = dict((k, v) for k, v in m)
             if SERIAL in d:
-                s = d[SERIAL][1]
-                serials.append(s)
-                if s not in log_pos:
-                    return "destination %d received a message (serial %r) that was never logged" % (did, s)
-                if nbuf < len(buffered) and log_pos[s] < j:
+                if nbuf < len(buffered):
                     when = j            # re-sent by the add
                     nbuf += 1
                 else:
-                    when = log_pos[s]
-            # every delivered message (reports included: they are delivered during the same call) carries all
-            # global fields set before its delivery
+                    when = log_pos[d[SERIAL][1]]
             for k, v in in_force(when).items():
                 if d.get(k) != v:
                     return ("destination %d: message delivered during call %d lacks global field %s=%r set before (has %r)"
                             % (did, when, progs.key_name(k), v, d.get(k)))
-        if serials != want:
-            return _explain(did, j, first_add, r, len(hist), buffered, later, serials)
     return None
 
 
